@@ -355,22 +355,17 @@ def r201(ctx, rep, f, ev, cg, reach):
         rep.bad("R20.1", "R20.1|chip_orders_ob|ids-unmodified", "expected exactly one collect() into a local in check_chip_id_order, found %d" % len(coll), W2)
 
     # codes at the single caller: E9004 on Err(count), else E9005 on Err(order)
+    # decided for the 8 outcome combinations of the three lane checks (each replaced by Ok / Err)
+    from .c13 import lane_check_codes
     dl = LA + "do_lane_alpide_checks"
-    tb = ev.tb(dl)
-    okc = False
-    msg = ""
-    if tb is not None:
-        cc = if_lets_on(tb, "::check_chip_count")
-        co = if_lets_on(tb, "::check_chip_id_order")
-        if len(cc) == 1 and len(co) == 1:
-            x, n, cn = cc[0]
-            c1 = codes_under(f, tb, n["then"])
-            in_else = n.get("else") is not None and any(y == co[0][0] for y, _ in tb.walk(n["else"]))
-            c2 = codes_under(f, tb, co[0][1]["then"])
-            okc = c1 == {"E9004"} and c2 == {"E9005"} and in_else and _is_err_pat(cn["pat"]) and _is_err_pat(co[0][2]["pat"])
-            msg = "count→%s, order→%s, order-in-else=%s" % (sorted(c1), sorted(c2), in_else)
-        else:
-            msg = "if-let sites: count=%d order=%d" % (len(cc), len(co))
+    tab = lane_check_codes(ev, f)
+    wrong = {}
+    for (bc, cnt, order), codes_ in tab.items():
+        want = ([] if cnt else ["E9004"]) + (["E9005"] if cnt and not order else [])
+        if isinstance(codes_, str) or [c_ for c_ in codes_ if c_ in ("E9004", "E9005")] != want:
+            wrong[(bc, cnt, order)] = codes_
+    okc = bool(tab) and not wrong
+    msg = "codes per (bunch counters ok, chip count ok, chip order ok) that deviate: %s" % wrong
     rep.check(okc, "R20.1", "R20.1|chip|codes", "Err(count) → [E9004]; otherwise Err(order) → [E9005] (%s)" % msg, W2,
               "do_lane_alpide_checks does not map Err(check_chip_count) to [E9004] and, only otherwise, Err(check_chip_id_order) to [E9005]: %s" % msg)
     for fn_, nm in ((LA + "check_chip_count", "count"), (LA + "check_chip_id_order", "order")):
